@@ -812,3 +812,11 @@ package table
 //@ func (*Path).SetNexthop
 //@   claims at-call
 //@   at-call bgp.NewPathAttributeMpReachNLRI( requires len(arg2) == 1 && arg2[0] == nexthop
+
+// from C10 "what is read back equals what was configured": a policy that an assignment still uses - in either
+// direction - is not deleted from under it (the assignment would go on applying an object no listing shows): the
+// in-use check visits the import and the export assignments of every active id
+//@ props C10
+//@ func (*RoutingPolicy).DeletePolicy$1
+//@   claims step
+//@   loop 1 step (__iter == 0 ==> dir == POLICY_DIRECTION_IMPORT) && (__iter == 1 ==> dir == POLICY_DIRECTION_EXPORT)
